@@ -64,9 +64,11 @@ package utils
 //@   safety
 //@   requires b != nil && b.ctx != nil
 //@   site block * EXITS: [C17] requires waits(ctxdone(b.ctx))
+//@   site block * NOLOCKHELD: [C17] requires nolocksheld()
 //@ func (*Broker).start$1
 //@   tags C17
 //@   site block * EXITS: [C17] requires waits(ctxdone(b.ctx))
+//@   site block * NOLOCKHELD: [C17] requires nolocksheld()
 
 //@ func (*Broker).start
 //@   tags C17
@@ -74,6 +76,7 @@ package utils
 //@   safety
 //@   requires b != nil && b.ctx != nil
 //@   site block * EXITS: [C17] requires waits(ctxdone(b.ctx))
+//@   site block * NOLOCKHELD: [C17] requires nolocksheld()
 //@   ensures ALLCLOSED: [C17] forall ch int :: (ch in subs) ==> closed(ch)
 //@   ghostflag delivering set call:start$1 clear call:Wait
 //@   site call close QUIESCENT: [C17] requires !flag("delivering")
@@ -93,11 +96,13 @@ package utils
 //@   requires b != nil
 //@   modifies nothing
 //@   site block * EXITS: [C17] requires waits(ctxdone(b.ctx))
+//@   site block * NOLOCKHELD: [C17] requires nolocksheld()
 //@ func (*Broker).Publish
 //@   tags C17
 //@   requires b != nil
 //@   modifies nothing
 //@   site block * EXITS: [C17] requires waits(ctxdone(b.ctx))
+//@   site block * NOLOCKHELD: [C17] requires nolocksheld()
 
 // ---- C03: the relay between two connections forwards exactly what it reads, in order, and stops (closing the
 // ---- destination) as soon as something read could not be written completely
